@@ -808,6 +808,18 @@ func (s *Silences) indexSilence(sil *pb.Silence) {
 	}
 }
 
+// reindexSilence replaces the version index entry of a silence that is already
+// indexed by one with a new version, and recompiles its matchers.
+func (s *Silences) reindexSilence(sil *pb.Silence) {
+	for i := range s.vi {
+		if s.vi[i].id == sil.Id {
+			s.vi = append(s.vi[:i], s.vi[i+1:]...)
+			break
+		}
+	}
+	s.indexSilence(sil)
+}
+
 func (s *Silences) getSilence(id string) (*pb.Silence, bool) {
 	msil, ok := s.st[id]
 	if !ok {
@@ -1315,6 +1327,12 @@ func (s *Silences) Merge(b []byte) error {
 		if merged {
 			if added {
 				s.indexSilence(e.Silence)
+			} else {
+				// A newer version of a known silence may match or be active
+				// where the previous one was not (for example an expired
+				// silence that was extended on another peer): index it as a
+				// new version so that cached results are re-evaluated.
+				s.reindexSilence(e.Silence)
 			}
 			if !cluster.OversizedMessage(b) {
 				// If this is the first we've seen the message and it's
